@@ -9,7 +9,7 @@ EXTENDS StreamHistC03, Json, IOUtils
 
 Data   == JsonDeserialize(IOEnv.TRACE_FILE)
 Traces == Data.traces
-AllToks == {"None", "inf", "1.4", "1.6", "3.7", "2.7", "0.4", "6.2", "9.8", "-2.5", "-0.3", "-inf", "nan"}
+AllToks == {"None", "inf", "0.6", "1.4", "1.6", "3.7", "2.7", "0.4", "6.2", "9.8", "-2.5", "-0.3", "-inf", "nan"}
              \cup {IntToks[i] : i \in DOMAIN IntToks}
 
 VARIABLES tid, l
